@@ -10,7 +10,7 @@ m=json.load(open(d+'/meta.json'))
 props=list(m['detected_by'].keys())
 caught={}
 for p in props:
-    out=subprocess.run(['/verif/scripts/try_patch.sh',d+'/patch.diff',p],capture_output=True,text=True,env=dict(os.environ,LINES_MAX='40',WIDTH='300')).stdout
+    out=subprocess.run(['/verif/scripts/try_patch.sh',d+'/patch.diff',p],capture_output=True,text=True,errors='replace',env=dict(os.environ,LINES_MAX='40',WIDTH='300')).stdout
     rules=sorted(set(re.findall(r': (C\d+\.\d+|RT\.\d+)(?: \(undecided\))?:',out)))
     rc=re.search(r'exit=(\d)',out)
     caught[p]={'exit':int(rc.group(1)) if rc else None,'rules':rules}
